@@ -24,24 +24,22 @@ structure Seen where
   escaped : Option Nat
   deriving Repr, DecidableEq, Inhabited
 
-/-- status code of the chunk that sent the status line: `code k` for handler `k`, 500 for recovery,
-    200 when nothing called `WriteHeader` (net/http's implicit status) -/
-def statusCode (code : Nat → Nat) : Option Chunk → Nat
-  | none => 200
-  | some (.h k) => code k
-  | some .rec500 => 500
+/-- how the harness sees a reference result: positions rendered as handler ids, silent positions
+    (the uninstrumented recovery / timeout middleware) dropped, status chunk turned into a code -/
+abbrev Render := RS → List Ev × Nat × List Chunk
 
 /-- a request "served normally": exactly what the reference semantics says for a fresh context -/
-def servedNormally (check : Bool) (code : Nat → Nat) (progs : List Prog) (o : Seen) : Bool :=
+def servedNormally (check : Bool) (rend : Render) (progs : List Prog) (o : Seen) : Bool :=
   let (r, esc) := ref check progs
-  o.trace == r.trace && o.status == statusCode code r.status && o.body == r.body && o.escaped == esc && esc.isNone
+  let (t, st, b) := rend r
+  o.trace == t && o.status == st && o.body == b && o.escaped.isNone && esc.isNone
 
 /-- the recovery clause of C10 on an observed request and its follow-ups -/
-def containOK (check : Bool) (code : Nat → Nat) (progs : List Prog) (o : Seen)
-    (followups : List (List Prog × Seen)) : Bool :=
+def containOK (check : Bool) (progs : List Prog) (o : Seen)
+    (followups : List (List Prog × Render × Seen)) : Bool :=
   o.escaped.isNone &&
   ((ref check progs).1.status != some Chunk.rec500 || o.status == 500) &&
-  followups.all fun (p, f) => servedNormally check code p f
+  followups.all fun (p, rend, f) => servedNormally check rend p f
 
 end Rivaas.Chain
 
